@@ -36,8 +36,13 @@ CONSTANTS
     LateStartKinds,       \* kinds whose server may still be starting: it is in the registry of servers, but has not
                           \* been handed its listener yet (the two steps of proxy.serve) -- a signal during start-up
     LateListenerLeaks,    \* deviation: a server that was shut down before it got its listener serves it all the same
+    FailKinds,            \* kinds whose listener may fail at run time
     DynamicKinds,         \* kinds whose listener can be closed at run time, before any shutdown (proto=tcp-dynamic:
                           \* the route of the port has gone -> proxy.CloseProxy)
+    GraceTicks,           \* proxy.deregistergraceperiod: after the signal fabio deregisters and goes on serving for this
+                          \* long; only then the shutdown of the listeners begins, and the wait counts from there
+    WaitFromSignal,       \* deviation: the wait is counted from the signal, so the grace period eats it up
+    FailedServerForgotten,\* deviation: a server whose listener failed is no longer waited for by the shutdown
     MaxSignals,           \* further termination signals (or SIGHUP) that may arrive while shutdown is under way
     SecondSignalKills,    \* deviation: a signal that arrives during the shutdown ends the process at once
     MaxServers,           \* size of a configuration
@@ -59,9 +64,12 @@ VARIABLES
     serving,    \* kind -> BOOLEAN: the server has been handed its listener
     late,       \* the kinds that were handed their listener after shutdown had begun
     removed,    \* the kinds whose listener was closed at run time, before shutdown (proxy.CloseProxy)
-    signals     \* signals received after the one that started the shutdown
+    signals,    \* signals received after the one that started the shutdown
+    tsig,       \* clock at the signal (-1 before); with GraceTicks = 0 the same as tstart
+    failed      \* the kinds whose listener failed at run time (Accept returned an error): they accept no more, the
+                \* work they carry goes on and the shutdown waits for it as for any other
 
-vars == <<kinds, clock, phase, tstart, tret, listening, items, srvdone, serving, late, removed, signals>>
+vars == <<kinds, clock, phase, tstart, tret, listening, items, srvdone, serving, late, removed, signals, tsig, failed>>
 
 Kinds == {KindOrder[i] : i \in DOMAIN KindOrder}
 Durs == {DurOrder[i] : i \in DOMAIN DurOrder}
@@ -82,6 +90,7 @@ Init ==
     /\ late = {}
     /\ removed = {}
     /\ signals = 0
+    /\ tsig = -1 /\ failed = {}
 
 \* Items accepted within one tick are listed in a canonical order (they are concurrent; the
 \* order carries no information).
@@ -99,50 +108,61 @@ Accept(k, d) ==
     /\ Cardinality(ItemsOf(k)) < MaxItems
     /\ Canonical(k, d)
     /\ items' = Append(items, [srv |-> k, dur |-> d, at |-> clock, left |-> Dur[d], st |-> "run"])
-    /\ UNCHANGED <<kinds, clock, phase, tstart, tret, listening, srvdone, serving, late, removed, signals>>
+    /\ UNCHANGED <<kinds, clock, phase, tstart, tret, listening, srvdone, serving, late, removed, signals, tsig, failed>>
 
 \* The server is handed its listener.  If it has been told to shut down in the meantime it closes the
 \* listener at once instead of accepting from it.
 StartServe(k) ==
     /\ ~serving[k]
     /\ serving' = [serving EXCEPT ![k] = TRUE]
-    /\ listening' = [listening EXCEPT ![k] = (phase = "running") \/ LateListenerLeaks]
-    /\ late' = IF phase = "running" THEN late ELSE late \cup {k}
-    /\ UNCHANGED <<kinds, clock, phase, tstart, tret, items, srvdone, removed, signals>>
+    /\ listening' = [listening EXCEPT ![k] = (phase \in {"running", "grace"}) \/ LateListenerLeaks]
+    /\ late' = IF phase \in {"running", "grace"} THEN late ELSE late \cup {k}
+    /\ UNCHANGED <<kinds, clock, phase, tstart, tret, items, srvdone, removed, signals, tsig, failed>>
 
 \* the work ends by itself: it completed normally
 Finish(i) ==
     /\ items[i].st = "run" /\ items[i].left = 0
     /\ items' = [items EXCEPT ![i].st = "done"]
-    /\ UNCHANGED <<kinds, clock, phase, tstart, tret, listening, srvdone, serving, late, removed, signals>>
+    /\ UNCHANGED <<kinds, clock, phase, tstart, tret, listening, srvdone, serving, late, removed, signals, tsig, failed>>
 
 \* proxy.Shutdown(W) is called: every listener is closed
+\* The signal arrives; with a deregister grace period fabio first goes on serving for that long.
+SignalStart ==
+    /\ phase = "running" /\ GraceTicks > 0
+    /\ phase' = "grace" /\ tsig' = clock
+    /\ UNCHANGED <<kinds, clock, tstart, tret, listening, items, srvdone, serving, late, removed, signals, failed>>
+
 ShutdownStart ==
-    /\ phase = "running"
+    /\ \/ phase = "running" /\ GraceTicks = 0
+       \/ phase = "grace" /\ clock >= tsig + GraceTicks
+    /\ tsig' = IF phase = "running" THEN clock ELSE tsig
     /\ phase' = "shutting" /\ tstart' = clock
     /\ listening' = [k \in kinds |-> FALSE]
-    /\ UNCHANGED <<kinds, clock, tret, items, srvdone, serving, late, removed, signals>>
+    /\ UNCHANGED <<kinds, clock, tret, items, srvdone, serving, late, removed, signals, failed>>
+
+\* the moment the configured wait is over
+WaitEnds == (IF WaitFromSignal THEN tsig ELSE tstart) + W
 
 \* a server whose work has drained is done
 Drain(k) ==
     /\ phase = "shutting" /\ ~srvdone[k] /\ Running(k) = {}
     /\ srvdone' = [srvdone EXCEPT ![k] = TRUE]
-    /\ UNCHANGED <<kinds, clock, phase, tstart, tret, listening, items, serving, late, removed, signals>>
+    /\ UNCHANGED <<kinds, clock, phase, tstart, tret, listening, items, serving, late, removed, signals, tsig, failed>>
 
 ObeysDeadline(k) == ~(k \in GrpcKinds /\ GrpcIgnoresDeadline)
 
 \* the wait is over: the server stops waiting for whatever is still open
 Deadline(k) ==
-    /\ phase = "shutting" /\ ~srvdone[k] /\ clock >= tstart + W
+    /\ phase = "shutting" /\ ~srvdone[k] /\ clock >= WaitEnds
     /\ ObeysDeadline(k)
     /\ items' = [i \in DOMAIN items |-> IF i \in Running(k) THEN [items[i] EXCEPT !.st = "cut"] ELSE items[i]]
     /\ srvdone' = [srvdone EXCEPT ![k] = TRUE]
-    /\ UNCHANGED <<kinds, clock, phase, tstart, tret, listening, serving, late, removed, signals>>
+    /\ UNCHANGED <<kinds, clock, phase, tstart, tret, listening, serving, late, removed, signals, tsig, failed>>
 
 Return ==
     /\ phase = "shutting" /\ \A k \in kinds : srvdone[k]
     /\ phase' = "returned" /\ tret' = clock
-    /\ UNCHANGED <<kinds, clock, tstart, listening, items, srvdone, serving, late, removed, signals>>
+    /\ UNCHANGED <<kinds, clock, tstart, listening, items, srvdone, serving, late, removed, signals, tsig, failed>>
 
 \* Time passes.  Work that is due ends first; at the deadline the servers act before the clock
 \* moves on (that is what "plus scheduling slack" bounds in reality).
@@ -150,14 +170,15 @@ Tick ==
     /\ phase # "returned"
     /\ \A i \in DOMAIN items : ~(items[i].st = "run" /\ items[i].left = 0)
     /\ phase = "running" => clock < MaxStart
+    /\ phase = "grace" => clock < tsig + GraceTicks
     /\ phase = "shutting" =>
           /\ ~(\A k \in kinds : srvdone[k])
-          /\ ~\E k \in kinds : ~srvdone[k] /\ clock >= tstart + W /\ (ObeysDeadline(k) \/ Running(k) = {})
+          /\ ~\E k \in kinds : ~srvdone[k] /\ clock >= WaitEnds /\ (ObeysDeadline(k) \/ Running(k) = {})
           /\ clock < tstart + W + Slack + 2      \* exploration bound for the deviating design
     /\ clock' = clock + 1
     /\ items' = [i \in DOMAIN items |->
                    IF items[i].st = "run" /\ items[i].left > 0 THEN [items[i] EXCEPT !.left = @ - 1] ELSE items[i]]
-    /\ UNCHANGED <<kinds, phase, tstart, tret, listening, srvdone, serving, late, removed, signals>>
+    /\ UNCHANGED <<kinds, phase, tstart, tret, listening, srvdone, serving, late, removed, signals, tsig, failed>>
 
 AcceptAny == \E k \in kinds, d \in Durs : Accept(k, d)
 FinishAny == \E i \in DOMAIN items : Finish(i)
@@ -168,13 +189,24 @@ StartServeAny == \E k \in kinds : StartServe(k)
 \* A listener is closed at run time (its route has gone): it stops listening, its connections are closed,
 \* and the later shutdown has nothing to do for it.
 Remove(k) ==
-    /\ phase = "running" /\ k \in DynamicKinds /\ k \notin removed /\ serving[k]
+    /\ phase \in {"running", "grace"} /\ k \in DynamicKinds /\ k \notin removed /\ serving[k]
     /\ removed' = removed \cup {k}
     /\ listening' = [listening EXCEPT ![k] = FALSE]
     /\ items' = [i \in DOMAIN items |-> IF i \in Running(k) THEN [items[i] EXCEPT !.st = "cut"] ELSE items[i]]
     /\ srvdone' = [srvdone EXCEPT ![k] = TRUE]
-    /\ UNCHANGED <<kinds, clock, phase, tstart, tret, serving, late, signals>>
+    /\ UNCHANGED <<kinds, clock, phase, tstart, tret, serving, late, signals, tsig, failed>>
 RemoveAny == \E k \in kinds : Remove(k)
+
+\* The listener of a server fails at run time (Accept returns an error that is not temporary): the server
+\* accepts no more, but the work it carries goes on -- and the shutdown that follows (fabio treats the failure
+\* as fatal and shuts down) drains that work like any other.
+ListenerFails(k) ==
+    /\ phase \in {"running", "grace"} /\ k \in FailKinds /\ k \notin failed /\ k \notin removed /\ serving[k] /\ listening[k]
+    /\ failed' = failed \cup {k}
+    /\ listening' = [listening EXCEPT ![k] = FALSE]
+    /\ srvdone' = [srvdone EXCEPT ![k] = FailedServerForgotten]
+    /\ UNCHANGED <<kinds, clock, phase, tstart, tret, items, serving, late, removed, signals, tsig>>
+ListenerFailsAny == \E k \in kinds : ListenerFails(k)
 
 \* Another signal while the shutdown is under way (a second SIGTERM / SIGINT, or the SIGHUP that fabio
 \* ignores): shutting down is idempotent, the signal changes nothing.
@@ -185,7 +217,7 @@ Signal ==
        THEN /\ phase' = "returned" /\ tret' = clock
             /\ items' = [i \in DOMAIN items |-> IF items[i].st = "run" THEN [items[i] EXCEPT !.st = "cut"] ELSE items[i]]
        ELSE UNCHANGED <<phase, tret, items>>
-    /\ UNCHANGED <<kinds, clock, tstart, listening, srvdone, serving, late, removed>>
+    /\ UNCHANGED <<kinds, clock, tstart, listening, srvdone, serving, late, removed, tsig, failed>>
 
 Next ==
     \/ AcceptAny
@@ -195,6 +227,8 @@ Next ==
     \/ DeadlineAny
     \/ StartServeAny
     \/ RemoveAny
+    \/ ListenerFailsAny
+    \/ SignalStart
     \/ Signal
     \/ Return
     \/ Tick
@@ -204,19 +238,20 @@ Spec == Init /\ [][Next]_vars
 -----------------------------------------------------------------------------
 TypeOK ==
     /\ kinds \subseteq Kinds /\ clock \in Nat
-    /\ phase \in {"running", "shutting", "returned"}
+    /\ phase \in {"running", "grace", "shutting", "returned"}
     /\ \A i \in DOMAIN items : items[i].srv \in kinds /\ items[i].dur \in Durs /\ items[i].st \in {"run", "done", "cut"}
 
 \* after shutdown begins no listener accepts
 NoAcceptAfterStart ==
-    phase # "running" => /\ \A k \in kinds : ~listening[k]
+    phase \in {"shutting", "returned"} => /\ \A k \in kinds : ~listening[k]
                          /\ \A i \in DOMAIN items : items[i].at <= tstart
-NoNewWorkAfterStart == [][phase # "running" => Len(items') = Len(items)]_vars
+Stopping == phase = "shutting" \/ phase = "returned"
+NoNewWorkAfterStart == [][Stopping => Len(items') = Len(items)]_vars
 
 \* work in flight that ends within the wait is never cut, and has completed when shutdown returns
 ShortCompletes ==
     \A i \in DOMAIN items :
-        (~Never(items[i].dur) /\ phase # "running" /\ Due(items[i]) < tstart + W /\ items[i].srv \notin removed) =>
+        (~Never(items[i].dur) /\ phase \in {"shutting", "returned"} /\ Due(items[i]) < tstart + W /\ items[i].srv \notin removed) =>
             /\ items[i].st # "cut"
             /\ phase = "returned" => items[i].st = "done"
 
